@@ -32,10 +32,7 @@ pub fn gen_base(seed: u64, idx: u64) -> Plan {
             c.c2s = gen_wire(&mut r, false);
             c.s2c = gen_wire(&mut r, false);
         }
-        let role = match r.below(10) {
-            8 if tls => 7, // the HTTP/2 client speaks plain TCP only
-            x => x,
-        };
+        let role = r.below(10);
         if role == 9 {
             // an upgraded websocket that is open (and echoing) when shutdown
             // is requested; its client half-closes later
@@ -197,7 +194,9 @@ pub fn gen_base(seed: u64, idx: u64) -> Plan {
     }
     if tls {
         for c in conns.iter_mut() {
-            c.kind = ConnKind::Tls;
+            if c.kind != ConnKind::H2 {
+                c.kind = ConnKind::Tls;
+            }
         }
     }
     let nw = r.usize_in(0, 4);
